@@ -1,8 +1,8 @@
 package props
 
 import (
-	"go/constant"
 	"fmt"
+	"go/constant"
 	"go/token"
 	"go/types"
 	"sort"
@@ -331,11 +331,11 @@ func runC08(c *Ctx) Info {
 		c.C.ExpectControl(r)
 	}
 	return Info{
-		Explanation: "Engine E2: interprocedural interval + stream-taint analysis (disjunctive intervals, known-bits, branch refinement on dominating edges, forwarded field loads, call-site parameter joins, field summaries, inlined small helpers) over every function reachable from a decoding entry point. Obligations: every fixed-size-array index, integer divisor, make size, signed shift count, comma-less type assertion and explicit panic. Slice rules: SLICE-CONST (constant index/bound needs a dominating length test), SLICE-ORDER (s[a:a+n] needs n >= 0), SLICE-UNRELATED (s[a:b] with a stream-derived b that is neither computed from a nor compared with it on any dominating edge), SLICE-LENREL (s[len(s)-k] needs len(s) >= k, established in the function or, for a parameter, on the way from every caller up to an exported entry point whose argument is the adversary's). Discharged when the computed set is inside the safe set; violated only on the witness shape (stream-tainted operand that is exactly out of range, or has no limit applied at all on the offending side); everything else is counted out-of-scope.",
+		Explanation:  "Engine E2: interprocedural interval + stream-taint analysis (disjunctive intervals, known-bits, branch refinement on dominating edges, forwarded field loads, call-site parameter joins, field summaries, inlined small helpers) over every function reachable from a decoding entry point. Obligations: every fixed-size-array index, integer divisor, make size, signed shift count, comma-less type assertion and explicit panic. Slice rules: SLICE-CONST (constant index/bound needs a dominating length test), SLICE-ORDER (s[a:a+n] needs n >= 0), SLICE-UNRELATED (s[a:b] with a stream-derived b that is neither computed from a nor compared with it on any dominating edge), SLICE-LENREL (s[len(s)-k] needs len(s) >= k, established in the function or, for a parameter, on the way from every caller up to an exported entry point whose argument is the adversary's). Discharged when the computed set is inside the safe set; violated only on the witness shape (stream-tainted operand that is exactly out of range, or has no limit applied at all on the offending side); everything else is counted out-of-scope.",
 		DoesNotCover: "slice / string index and slice-expression bounds with variable operands (relational; only the constant, a:a+n and len-k shapes are decided), nil dereference, nil-map writes, stack exhaustion, image/jpeg internals: a clean run does not imply C08, a violation refutes it",
 		Trusted:      commonTrusted,
 		Assumptions:  rangeAssumptions,
-		Extra: map[string]any{"functions_analysed": len(funcs), "rounds": eng.Rounds, "sites": map[string]int{"IDX": st.idx, "DIV": st.div, "MAKE": st.mk, "SHIFT": st.shift, "ASSERT": st.assert, "PANIC": st.panics}},
+		Extra:        map[string]any{"functions_analysed": len(funcs), "rounds": eng.Rounds, "sites": map[string]int{"IDX": st.idx, "DIV": st.div, "MAKE": st.mk, "SHIFT": st.shift, "ASSERT": st.assert, "PANIC": st.panics}},
 	}
 }
 
